@@ -40,8 +40,8 @@ class C18(Check):
     outside_claim = ['np.float32 rounding of the value itself (the same real value is used for all forms)',
                      'bitwise identity of complete float results']
     canary = {'what': 'scalar lambda multiplied by the block count instead of the class size',
-              'edits': [('fast_ticc/admm/solver.py', '        num_occurrences = num_blocks - block_id\n        return lambda_parameter * num_occurrences',
-                         '        num_occurrences = num_blocks\n        return lambda_parameter * num_occurrences')]}
+              'edits': [('fast_ticc/admm/solver.py', '        return float(lambda_parameter) * num_occurrences',
+                         '        return float(lambda_parameter) * num_blocks')]}
 
     def bounds(self, tier):
         return {'(N,W)': [(1, 1), (2, 1), (1, 2)] if tier == 'quick' else [(1, 1), (2, 1), (1, 2), (2, 2), (1, 3), (3, 1)],
